@@ -27,6 +27,7 @@ from .model import FunctionInfo, walk_local
 FS = frozenset
 PART_ATTRS = {"start_point", "end_point", "point", "points", "convex_polygons", "segment_set", "point_set", "line", "plane", "p"}
 PART_METHODS = {"segments"}
+COLLECTION_PARTS = {"points", "convex_polygons", "segment_set", "point_set", "segments()"}
 HULL = {"Segment", "ConvexPolygon", "ConvexPolyhedron", "get_segment_from_point_list"}
 UNKNOWN = ("?",)
 
@@ -378,7 +379,9 @@ class Origins:
             return {("elem", o) for o in self.ev(it, r, local) if o != UNKNOWN}
         if isinstance(it, ast.Name) or (isinstance(it, ast.Call) and isinstance(it.func, ast.Name)
                                         and it.func.id in ("list", "tuple", "sorted", "set")):
-            return self.ev(it, r, local)  # local container
+            # a local container holds its element origins directly; a local that merely names an operand's collection
+            # (`faces = cph.convex_polygons`, `b_segments = tuple(b.segments())`) yields that collection's elements
+            return {("elem", d) if (d[0] == "part" and d[2] in COLLECTION_PARTS) else d for d in self.ev(it, r, local)}
         if isinstance(it, ast.Call) and isinstance(it.func, ast.Name) and it.func.id in ("range", "enumerate", "zip"):
             return set()
         if isinstance(it, ast.Call) and isinstance(it.func, ast.Name) and self.is_helper(it.func.id):
@@ -610,6 +613,22 @@ def check_families(ctx, res, rule: str, fi: FunctionInfo, required: List[str], w
                         for f2 in req_present:
                             if any(any(x is s for x in ast.walk(cur)) for s in fams[f2]):
                                 nested = True
+                    if isinstance(cur, ast.If) and not nested:
+                        # the comprehension form of the same early accept:
+                        #     x = next((e for e in FAMILY if P(e)), None)
+                        #     if x is not None: return x
+                        t = cur.test
+                        nm = None
+                        if isinstance(t, ast.Compare) and len(t.ops) == 1 and isinstance(t.ops[0], ast.IsNot) and isinstance(t.left, ast.Name) \
+                                and isinstance(t.comparators[0], ast.Constant) and t.comparators[0].value is None:
+                            nm = t.left.id
+                        if nm is not None and isinstance(r.value, ast.Name) and r.value.id == nm and any(x is r for b_ in cur.body for x in ast.walk(b_)):
+                            for f2 in req_present:
+                                for s_ in fams[f2]:
+                                    if isinstance(s_, ast.Assign) and len(s_.targets) == 1 and isinstance(s_.targets[0], ast.Name) \
+                                            and s_.targets[0].id == nm and isinstance(s_.value, ast.Call) and isinstance(s_.value.func, ast.Name) \
+                                            and s_.value.func.id == "next" and s_.value.args and isinstance(s_.value.args[0], ast.GeneratorExp):
+                                        nested = True
                     if isinstance(cur, ast.FunctionDef):
                         break
                 if not nested:
